@@ -20,9 +20,9 @@ end box
 section steps
 variable {α : Type} [Add α] [Sub α] [Mul α] [Div α] [Neg α] [NatCast α]
 /-- StandardPerturbation: the perturbation of one coordinate from the draw `u` and the step `s` -/
-def stdPerturbation (u s : α) : α := TopSearch.Moves.stdPerturbation u s
+def stdPerturbation (u s : α) : α := ((u - (((1 : Nat) : α) / ((2 : Nat) : α))) * s)
 /-- set_step_sizes, proportional branch (`m` = max_displacement) -/
-def stepSizeProp (m lo hi : α) : α := TopSearch.Moves.stepSize true m lo hi
+def stepSizeProp (m lo hi : α) : α := ((hi - lo) * m)
 /-- the perturbation is added to the position (false: subtracted) -/
 def stdAdds : Bool := true
 /-- `coords.move_to_bounds()` is the last statement of `perturb` -/
